@@ -22,27 +22,28 @@ Inductive op :=
   | OArr (s : Z) (v : list Q)
   | OSetErr
   | OBox (b sa sb : Z)
-  | OOfPts (b : Z) (ss : list Z) (pad : Q)
+  | OOfPts (b : Z) (ss : list Z) (pad : option Q)      (* None = the argument is omitted: the default written in the def *)
   | OPadS (b : Z) (p : Q)
   | OPadV (b s : Z)
   | OContains (b s : Z)
   | OProject (b s : Z)
-  | ODistance (b s : Z) (k : nkind)
+  | ODistance (b s : Z) (k : option nkind)
   | OUnion (nb b1 b2 : Z)
   | OInter (nb b1 b2 : Z)
   | ODoInt (b1 b2 : Z)
   | OIsEmpty (b : Z)
   | OSpan (b : Z)
   | OCenter (b : Z)
-  | OUnitCube (nb : Z) (dim : Z) (centered : bool)
+  | OUnitCube (nb : Z) (dim : Z) (centered : option bool)
   | OInfinite (nb : Z) (dim : Z)                 (* corners at infinity: outside the field model, only observed *)
-  | OOfMesh (nb : Z) (ss : list Z) (pad : Q)
-  | ONormalize (s : Z) (k : nkind) (after : list Q)   (* Vec.normalize, in place; `after` = the contents observed afterwards *)
+  | OOfMesh (nb : Z) (ss : list Z) (pad : option Q)
+  | OSpanStore (b s : Z) | OCenterStore (b s : Z)    (* span / center, the returned array kept by the caller as array s *)
+  | ONormalize (s : Z) (k : option nkind) (after : list Q)   (* Vec.normalize, in place; `after` = the contents observed afterwards *)
   | OVecCtor (c : Z) (n : Z) (sa sb : Z) (va vb : list Q)
       (* a Vec constructor (0 zeros(n), 1 X, 2 Y, 3 Z, other: random(n)) called TWICE with the same arguments; the two
          results become caller arrays sa, sb; va, vb = the observed contents (the model's own for 0..3) *)
   | OSetComp (s : Z) (i : Z) (v : Q)              (* the caller writes arr[s][i] = v *)
-  | OFn (f : fn) (args : list Z) (k : nkind) (sc : list Q) (fl : list float) (cx : list bool).
+  | OFn (f : fn) (args : list Z) (k : option nkind) (sc : list Q) (fl : list float) (cx : list bool).
       (* cx: which arguments are passed as complex numbers (2-D primitives) *)
       (* sc: exact scalar arguments; fl: what the numerical shell computed on the Python side
          (cos/sin of the angle argument, or cmath.polar's angle) *)
@@ -95,7 +96,17 @@ Definition exn_eqb (a b : exn) : bool :=
   | _, _ => false
   end.
 Definition vq_eqb (a b : list Q) : bool := list_eqb Qeq_bool a b.
-Definition vf_agree (a b : list float) : bool := list_eqb fagree a b.
+(* vectors are compared relatively to the size of the WHOLE vector: a component that cancels to ~0 carries the absolute
+   rounding error of the large ones *)
+Definition fmaxabs (v : list float) : float :=
+  fold_right (fun x m => if PrimFloat.ltb m (PrimFloat.abs x) then PrimFloat.abs x else m) PrimFloat.zero v.
+Definition fagree_rel (m a b : float) : bool :=
+  if fis_nan a then fis_nan b
+  else if PrimFloat.eqb a b then true
+  else PrimFloat.leb (PrimFloat.abs (PrimFloat.sub a b)) (PrimFloat.mul tol9 (PrimFloat.add PrimFloat.one m)).
+Definition vf_agree (a b : list float) : bool :=
+  let m := fmaxabs (List.filter (fun x => negb (fis_nan x) && PrimFloat.ltb (PrimFloat.abs x) PrimFloat.infinity) b) in
+  list_eqb (fagree_rel m) a b.
 
 Definition two_pi : float := PrimFloat.mul (mkf 2 0) fpi.
 Definition tol6 : float := mkf 4722366482869645 (-72).   (* 1e-6: angles near the branch cut *)
@@ -150,7 +161,16 @@ Definition QO := Qops.
 Definition FO := Fops.
 
 (* one primitive on caller arrays *)
-Definition run_fn (f : fn) (a : list (list Q)) (k : nkind) (sc : list Q) (fl : list float) (cx : list bool) : mres :=
+Definition dflt {A} (x : option A) (d : A) : A := match x with Some v => v | None => d end.
+
+Definition run_fn (f : fn) (a : list (list Q)) (ko : option nkind) (sc : list Q) (fl : list float) (cx : list bool) : mres :=
+  let k := dflt ko match f with
+                   | FNorm => dflt_g_norm_which Q QO
+                   | FVNorm => dflt_vec_norm_which Q QO
+                   | FDistance => dflt_g_distance_which Q QO
+                   | FNormalized => dflt_vec_normalized_which Q QO
+                   | _ => L2
+                   end in
   let af := map vq2f a in
   let P2 i := if nth i cx false then ACplx (nth 0 (nth i a []) 0%Q) (nth 1 (nth i a []) 0%Q) else AVec (nth i a []) in
   let A i := nth i a [] in
@@ -250,14 +270,15 @@ Definition step (st : state) (o : op) : mres * state * list (Z * (list Q * list 
       end
   | OOfPts nb ss pad =>
       match all_some (map A ss) with
-      | Some pts => newbox nb (aabb_of_points Q QO pts pad)
+      | Some pts => newbox nb (aabb_of_points Q QO pts (dflt pad (dflt_aabb_of_points_padding Q QO)))
       | None => keep MBad
       end
   | OPadS b p => match B b with Some bx => padded b bx (aabb_pad_scalar Q QO bx p) | None => keep MBad end
   | OPadV b s => match B b, A s with Some bx, Some v => padded b bx (aabb_pad_vec Q QO bx v) | _, _ => keep MBad end
   | OContains b s => match B b, A s with Some bx, Some v => keep (of_res MB (aabb_contains_point Q QO bx v)) | _, _ => keep MBad end
   | OProject b s => match B b, A s with Some bx, Some v => keep (of_res MVQ (aabb_project Q QO bx v)) | _, _ => keep MBad end
-  | ODistance b s k =>
+  | ODistance b s ko =>
+      let k := dflt ko (dflt_aabb_distance_which Q QO) in
       match B b, A s with
       | Some bx, Some v =>
           match k with
@@ -272,14 +293,25 @@ Definition step (st : state) (o : op) : mres * state * list (Z * (list Q * list 
   | OIsEmpty b => match B b with Some x => keep (MB (aabb_is_empty Q QO x)) | None => keep MBad end
   | OSpan b => match B b with Some x => keep (MVQ (aabb_span Q QO x)) | None => keep MBad end
   | OCenter b => match B b with Some x => keep (MVQ (aabb_center Q QO x)) | None => keep MBad end
-  | OUnitCube nb dim c => newbox nb (aabb_unit_cube Q QO (Z.to_nat dim) c)
+  | OUnitCube nb dim c => newbox nb (aabb_unit_cube Q QO (Z.to_nat dim) (dflt c (dflt_aabb_unit_cube_centered Q QO)))
   | OInfinite nb dim => keep MNone
   | OOfMesh nb ss pad =>
       match all_some (map A ss) with
-      | Some pts => newbox nb (aabb_of_mesh Q QO pts pad)
+      | Some pts => newbox nb (aabb_of_mesh Q QO pts (dflt pad (dflt_aabb_of_mesh_padding Q QO)))
       | None => keep MBad
       end
-  | ONormalize s k after =>
+  | OSpanStore b s =>
+      match B b with
+      | Some x => let r := aabb_span Q QO x in (MVQ r, mkst ((s, r) :: arrs st) (boxes st), [], 0%Z)
+      | None => keep MBad
+      end
+  | OCenterStore b s =>
+      match B b with
+      | Some x => let r := aabb_center Q QO x in (MVQ r, mkst ((s, r) :: arrs st) (boxes st), [], 0%Z)
+      | None => keep MBad
+      end
+  | ONormalize s ko after =>
+      let k := dflt ko (dflt_vec_normalize_which Q QO) in
       match A s with
       | Some v => (MVF (vec_normalize float FO (vq2f v) k), mkst ((s, after) :: arrs st) (boxes st), [],
                    if vq_eqb v after then 0%Z else 1%Z)
